@@ -368,7 +368,7 @@ def typed_arm_rule(rule, c, functions, exceptions=None):
     return n
 
 
-def normalise_kernel_text(t):
+def normalise_kernel_text(t, strip_casts=True, rename_loops=True):
     """text of a C kernel made insensitive to local clean-ups before siblings are compared:
     comments and numeric pointer casts removed, locals that always receive the same expression
     replaced by it (copy propagation: `row = A->rowind[k]`, `int xs = (ix > 0 ? 0 : 1 - n)`),
@@ -376,7 +376,8 @@ def normalise_kernel_text(t):
     t = cx.strip_pp(t)
     t = re.sub(r"//[^\n]*", "", t)
     t = re.sub(r"/\*.*?\*/", "", t, flags=re.S)
-    t = re.sub(r"\(\s*(?:double|complex_t|int_t|int|number)\s*\*?\s*\)", "", t)
+    if strip_casts:
+        t = re.sub(r"\(\s*(?:double|complex_t|int_t|int|number)\s*\*?\s*\)", "", t)
     body_start = t.find("{")
     head, body = t[:body_start + 1], t[body_start + 1:]
     for _round in range(4):
@@ -405,8 +406,9 @@ def normalise_kernel_text(t):
         if not done:
             break
     t = head + body
-    for v in set(re.findall(r"\bfor\s*\(\s*([A-Za-z_]\w*)\s*=", t)):
-        t = re.sub(r"\b%s\b" % re.escape(v), "_i", t)
+    if rename_loops:
+        for v in set(re.findall(r"\bfor\s*\(\s*([A-Za-z_]\w*)\s*=", t)):
+            t = re.sub(r"\b%s\b" % re.escape(v), "_i", t)
     return t
 
 
@@ -713,6 +715,86 @@ def buildvalue_rule(rule, c, functions):
                                "matching unit (int_t / Py_ssize_t -> 'l' or 'n')", bad)
             else:
                 rule.ok(key, where, "%s <- %s" % (units, [a.get("t") for a in args]))
+    return n
+
+
+def local_array_loop_rule(rule, c, wrappers):
+    """Hand-written loops over a locally allocated array stay inside the allocation: for
+    `for (v = 0; v < E; v++) .. P[v] ..` with `P = malloc/calloc(count ..)`, E <= count for all
+    small values of the variables involved (MIN/MAX evaluated)."""
+    from . import ceval as ce
+    import itertools
+    n = 0
+    for fn in wrappers:
+        sim = cm.Simulator(c, fn)
+        node = c.funcs[fn]
+        txt = cx.strip_pp(c.text(node["b"], node["e"]))
+        txt = re.sub(r"/\*.*?\*/", "", txt, flags=re.S)
+        allocs = {}
+        for m_ in re.finditer(r"\b(\w+)\s*=\s*(?:\([^()]*\)\s*)?(calloc|malloc)\s*\(", txt):
+            i, d = m_.end(), 1
+            while i < len(txt) and d:
+                if txt[i] == "(":
+                    d += 1
+                elif txt[i] == ")":
+                    d -= 1
+                i += 1
+            args = cf.split_top(txt[m_.end():i - 1])
+            cnt = None
+            if m_.group(2) == "calloc" and len(args) == 2:
+                cnt = args[0]
+            elif m_.group(2) == "malloc" and len(args) == 1:
+                mm = re.match(r"(.*)\*\s*sizeof\s*\([^()]*\)\s*$", args[0].strip()) or re.match(r"sizeof\s*\([^()]*\)\s*\*(.*)$", args[0].strip())
+                if mm:
+                    cnt = mm.group(1)
+            if cnt is not None:
+                allocs.setdefault(m_.group(1), []).append(cnt.strip())
+        if not allocs:
+            continue
+        for m_ in re.finditer(r"\bfor\s*\(\s*(?:int\s+)?(\w+)\s*=\s*0\s*;\s*\1\s*<\s*([^;]+?)\s*;[^)]*\)", txt):
+            v, bound = m_.group(1), m_.group(2)
+            # body: up to the matching end of the statement / block
+            j = m_.end()
+            while j < len(txt) and txt[j].isspace():
+                j += 1
+            if j < len(txt) and txt[j] == "{":
+                k, d = j + 1, 1
+                while k < len(txt) and d:
+                    if txt[k] == "{":
+                        d += 1
+                    elif txt[k] == "}":
+                        d -= 1
+                    k += 1
+                body = txt[j:k]
+            else:
+                body = txt[j:txt.find(";", j) + 1]
+            for P, counts in allocs.items():
+                if not re.search(r"\b%s\s*\[\s*%s\s*\]" % (re.escape(P), re.escape(v)), body):
+                    continue
+                n += 1
+                key = "%s:loop over %s[%s] bounded by %s" % (fn, P, v, re.sub(r"\s+", "", bound))
+                where = "src/C/%s:%s:%d" % (c.name, fn, c.line_of(node["b"]) + txt[:m_.start()].count("\n"))
+                try:
+                    be = cx.parse(bound)
+                    ces = [cx.parse(x) for x in counts]
+                    names = sorted(ce.free_names(be) | set().union(*[ce.free_names(x) for x in ces]))
+                    if len(names) > 5:
+                        raise ce.Unknown("too many variables")
+                    bad = None
+                    for vals in itertools.product(range(0, 4), repeat=len(names)):
+                        env = dict(zip(names, vals))
+                        bv = ce.ceval(be, env)
+                        if all(bv > ce.ceval(x, env) for x in ces) and bad is None:
+                            bad = (env, bv, [ce.ceval(x, env) for x in ces])
+                except (ce.Unknown, cx.ParseError, ZeroDivisionError) as ex:
+                    rule.undecided(key, where, "bound or allocation size not evaluable: %s" % ex)
+                    continue
+                if bad:
+                    rule.violation(key, where,
+                                   "the loop runs to %s = %d but `%s` was allocated with %s = %s elements for %s: the wrapper reads/writes past its own work array"
+                                   % (bound, bad[1], P, counts, bad[2], bad[0]), "bound <= allocation count", "%s > %s" % (bad[1], bad[2]))
+                else:
+                    rule.ok(key, where, "%s <= %s" % (bound, counts))
     return n
 
 
